@@ -245,7 +245,7 @@ func c16Run(f []string) string {
 		}
 		return c16Repeat(func() string { return cmd.VerifBuildSpecialKeyJson(matches, m) })
 	}
-	return "bad-op"
+	return c16RunR4(f)
 }
 
 func c16ShowTable(t map[string]int) string {
@@ -796,6 +796,7 @@ func c16Gen(r *Rand, tier string) []string {
 			}
 		}
 	}
+	out = append(out, c16GenR4(r, tier)...)
 	return out
 }
 
@@ -890,6 +891,7 @@ func c16Stats(cases []string) map[string]int {
 			}
 		}
 	}
+	c16StatsR4(cases, st)
 	return st
 }
 
